@@ -18,7 +18,7 @@ ID = "C11"
 LEVEL = "exploration"
 RULE = ("inputs: every example file lasio can read and write (skips counted by reason), generated LASFiles (rv/gen/lasobj, with "
         "duplicated/blank/case-variant mnemonics, text curves, custom sections) and mutations of corpus files (duplicated and "
-        "blanked mnemonics, '.1IN'-style units, emptied values, very long fields) x writer option sets (default, version 1.2, "
+        "blanked mnemonics, '.1IN'-style units, emptied values, a STEP line without unit and value, very long fields) x writer option sets (default, version 1.2, "
         "version 2 wrapped, fmt %.2f, narrow data_width, mnemonics header) x 4 (quick) / 6 (thorough) load-save cycles. "
         "distinct = distinct (input, mutation, option set); non-trivial = history that completed >= 2 cycles")
 ASSUMPTIONS = [
@@ -33,7 +33,7 @@ TECHNIQUE = "runtime monitoring: history checker over recorded read/write cycles
 
 OPTSETS = [{}, {"version": 1.2}, {"version": 2, "wrap": True}, {"fmt": "%.2f"}, {"wrap": True, "data_width": 40, "fmt": "%.3f"},
            {"mnemonics_header": True, "data_section_header": "~A"}, {"version": 1.2, "wrap": False, "len_numeric_field": -1}]
-MUTATIONS = ["none", "dup_curve", "blank_curve", "dup_param", "unit_point1in", "empty_values", "long_fields", "blank_param"]
+MUTATIONS = ["none", "dup_curve", "blank_curve", "dup_param", "unit_point1in", "empty_values", "long_fields", "blank_param", "empty_step"]
 
 
 def corpus():
@@ -86,6 +86,12 @@ def mutate(lasio, las, mutation):
         for it in list(las.params)[:3]:
             it.value = ""
         las.params.append(lasio.HeaderItem("EMPT", "ohm.m/verylongunit", "", "empty value, widest unit"))
+    elif mutation == "empty_step":
+        # a STEP line with neither unit nor value ('STEP.   : STEP'), as irregularly sampled files have it
+        if "STEP" in las.well:
+            las.well["STEP"].unit = ""
+            las.well["STEP"].value = ""
+        las.params.append(lasio.HeaderItem("NOUNIT", "", "", "empty value, no unit"))
     elif mutation == "long_fields":
         las.well.append(lasio.HeaderItem("LONGMNEMONIC_LONGMNEMONIC_X", "averyveryverylongunit", "v" * 120, "d " * 80))
     return las
